@@ -79,6 +79,9 @@ extern "C" void vp_thread1() {
       auto nx = s->erase(std::move(it));
       after = (nx != s->end()) ? KEYOF(nx) : 0;
       vp_assert(after == 0 || (after > FK && (((PRE | INS) >> after) & 1)), 5);
+      // a later element that stays in the container throughout: the returned iterator refers to it or to something in front of it
+      constexpr unsigned stay = (PRE & ~ERA) & ~((2u << FK) - 1);
+      if (stay != 0) { int nxt = 1; while (!((stay >> nxt) & 1)) ++nxt; vp_assert(after != 0 && after <= nxt, 6); }
     }
   }
 #endif
